@@ -47,6 +47,18 @@ def readName (r : String) (f : Int → SProg) : SProg :=
 
 def ret (i : Int) : SProg := .ret (.int i)
 
+def atErr : SProg := .raise (.user 5)
+
+/-- `S.r` / `_space.r` used as a number: the attribute slot, read `byAttr` (recorded in the reference
+graph); nothing of the name there: `AttributeError` -/
+def readAttr (sp r : String) (f : Int → SProg) : SProg :=
+  .name (sp ++ "." ++ r) (fun b => match b with
+    | some (.ref rid) => .read true rid (fun o => match o with
+      | some (.int v) => f v
+      | some .none => tyErr
+      | none => atErr)
+    | _ => atErr)
+
 def templSrc (d : CDef) (key : Key) : SProg :=
   match key with
   | [.int x] =>
@@ -54,6 +66,9 @@ def templSrc (d : CDef) (key : Key) : SProg :=
     | 0 => ret (x + d.k)
     | 1 => callName d.a x (fun v => ret (v * 2 + d.k))
     | 2 => readName d.r (fun v => ret (v + x))
+    -- `{c}.{r} + x`: `a` carries the path of the space the name `{c}` denotes
+    | 3 => readAttr d.a d.r (fun v => ret (v + x))
+    | 16 => readAttr "_space" d.r (fun v => ret (v + x))
     | 5 => if x > 0 then callName d.a (x - 1) (fun v => ret (v + 1)) else ret d.k
     | 6 => readName d.r (fun v => ret (x * d.k + v))
     | 7 => readName "u" (fun v => ret (v + x))
@@ -146,6 +161,26 @@ def stepLine (wd : World) (line : String) : World × String :=
       ({ wd with defs := (v, { cached := cached != "0", templ := t, k := k, a := a, r := r }) ::
           wd.defs.filter (·.1 != v) }, "ok")
     | _, _, _ => (wd, "bad-op")
+  | ["slot", p, x] =>
+    -- declare the attribute slot `(p, x)` (before anything reads through it)
+    let e := (pathOf p, x)
+    let t := wd.w.tabs
+    if t.slots.contains e then (wd, "ok")
+    else
+      let t' : Tabs := { t with slots := t.slots ++ [e], rtab := if t.rtab.contains e then t.rtab else t.rtab ++ [e] }
+      let w' : W := { wd.w with tabs := t' }
+      ({ wd with w := w' }, "ok")
+  | ["setglobal", x, v] =>
+    match v.toNat? with
+    | some v =>
+      let acc := (wd.w.sm.apply kw (.setGlobal x)).isSome
+      let cov := stepCoveredG P wd.w (.setGlobal x v)
+      ({ wd with w := stepG P wd.w (.setGlobal x v) }, (if acc then "acc" else "rej") ++ (if cov then "" else " UNCOVERED"))
+    | none => (wd, "bad-op")
+  | ["delglobal", x] =>
+    let acc := (wd.w.sm.apply kw (.delGlobal x)).isSome
+    let cov := stepCoveredG P wd.w (.delGlobal x)
+    ({ wd with w := stepG P wd.w (.delGlobal x) }, (if acc then "acc" else "rej") ++ (if cov then "" else " UNCOVERED"))
   | ["rval", v, i] =>
     match v.toNat?, i.toInt? with
     | some v, some i => ({ wd with rvals := (v, i) :: wd.rvals.filter (·.1 != v) }, "ok")
@@ -176,8 +211,8 @@ def stepLine (wd : World) (line : String) : World × String :=
     | some o =>
       let acc := (wd.w.sm.apply kw o).isSome
       -- the decidable coverage check of the step (`C02.machine_keeps_ci_partial`)
-      let cov := stepCovered P wd.w (.struct o)
-      ({ wd with w := MxModel.Edit.step P wd.w (.struct o) }, (if acc then "acc" else "rej") ++ (if cov then "" else " UNCOVERED"))
+      let cov := stepCoveredG P wd.w (.op (.struct o))
+      ({ wd with w := stepG P wd.w (.op (.struct o)) }, (if acc then "acc" else "rej") ++ (if cov then "" else " UNCOVERED"))
 
 partial def loop (h out : IO.FS.Stream) (wd : World) : IO Unit := do
   let line ← h.getLine
